@@ -159,17 +159,24 @@ def cmd_inrepo(name, tier='quick'):
 
 
 def cmd_table():
-    print('| seeded change | property | what it needs | caught by its property check | other checks that catch it |')
+    print('| seeded change | property | what it needs | caught by its property check (quick, seed 1) | other checks known to catch it |')
     print('|---|---|---|---|---|')
-    for d in sorted(glob.glob(os.path.join(SEEDED, '*'))):
-        n = os.path.basename(d)
+    import re
+
+    def order(n):
+        a, b = re.match(r'C(\d+)-(\w+)', n).groups()
+        return (int(a), int(b) if b.isdigit() else 99, b)
+    for n in sorted((os.path.basename(d) for d in glob.glob(os.path.join(SEEDED, 'C*'))), key=order):
         m = meta_of(n)
         if not m:
             continue
         own = m.get('caught_by_own_property_check')
-        others = [p for p in m.get('caught_by', []) if p != m['property']]
-        print('| %s | %s | %s | %s | %s |' % (n, m['property'], (m.get('needs') or '').replace('|', '/').replace('\n', ' ')[:160],
-                                              'yes' if own else ('obsolete (harmless since fix D12, see meta.json)' if m.get('obsolete') else ('not claimed (outside the asserted domain, see meta.json)' if m.get('not_claimed') else ('NO' if own is not None else '?'))), ' '.join(others)))
+        cross = m.get('cross_quick_at_7f54aef')
+        others = sorted(set(p for p in (cross if cross is not None else m.get('caught_by', [])) if p != m['property']))
+        col = ' '.join(others) if (cross is not None or len(m.get('checks_quick', {})) > 1) else 'not measured'
+        what = (m.get('needs') or m.get('visible_difference') or '').replace('|', '/').replace('\n', ' ')[:160]
+        print('| %s | %s | %s | %s | %s |' % (n, m['property'], what,
+              'yes' if own else ('obsolete (harmless since fix D12, see meta.json)' if m.get('obsolete') else ('not claimed (outside the asserted domain, see meta.json)' if m.get('not_claimed') else ('NO' if own is not None else '?'))), col))
 
 
 if __name__ == '__main__':
